@@ -39,6 +39,7 @@ pub fn cells(tier: Tier) -> Vec<CellPlan> {
     add(h, 2, 3, 3, 4, 2.0);
     add(cells::three_comps("C02", 1), 1, 2, 2, 2, 1.0);
     add(cells::three_comps("C02", 2), 1, 1, 2, 2, 1.0);
+    add(cells::refused_value("C02"), 1, 2, 3, 4, 1.0);
     let mut r = cells::reinsert("C02");
     r.env = Env::full();
     add(r, 2, 3, 3, 4, 2.0);
